@@ -28,7 +28,7 @@ def _elements(x):
     return [g for g in x]
 
 
-def h_transform(cx, sps, kind, inplace, axis=2, container=False):
+def h_transform(cx, sps, kind, inplace, axis=2, container=False, touched=False):
     ops = geo.M('operations')
     objs = []
     for i, sp in enumerate(sps):
@@ -55,6 +55,11 @@ def h_transform(cx, sps, kind, inplace, axis=2, container=False):
             src.add(o)
     else:
         src = objs[0]
+    if container and touched:
+        # the container was iterated before and the loop abandoned early (for ... break / next(iter(c)))
+        for _g in src:
+            break
+        next(iter(src))
     origs = [shapes.clone(o) for o in objs]
     snaps = [shapes.snapshot(o) for o in objs]
     dim = sps[0]['dim']
@@ -137,4 +142,8 @@ def instances(tier):
             out.append(inst('container %s scale inplace=%s' % (nm, inplace), h_transform, timeout=1200, sps=lst, kind='scale', inplace=inplace, container=True))
             for ax in (0, 2):
                 out.append(inst('container %s rotate axis%d inplace=%s' % (nm, ax, inplace), h_transform, timeout=2400, sps=lst, kind='rotate', inplace=inplace, axis=ax, container=True))
+    for inplace in (False, True):
+        out.append(inst('container curves (iterated before) translate inplace=%s' % inplace, h_transform, timeout=1200, sps=c2, kind='translate', inplace=inplace, container=True, touched=True))
+        out.append(inst('container surfaces (iterated before) scale inplace=%s' % inplace, h_transform, timeout=1200, sps=s2, kind='scale', inplace=inplace, container=True, touched=True))
+        out.append(inst('container curves (iterated before) rotate axis2 inplace=%s' % inplace, h_transform, timeout=2400, sps=c2, kind='rotate', inplace=inplace, axis=2, container=True, touched=True))
     return out
